@@ -1593,7 +1593,7 @@ func (in *interp) query(o Op) string {
 		if q.Idx == idxLPM {
 			q.Pfx.Len = 16
 		} else {
-			q.Len = 24
+			q.Len = 8 * ulpmBytes
 		}
 	}
 	// ---- held iterators (C01): the iterator is created now and consumed later -
@@ -1676,7 +1676,7 @@ func (in *interp) watch(o Op) string {
 		if q.Idx == idxLPM {
 			q.Pfx.Len = 16
 		} else {
-			q.Len = 24
+			q.Len = 8 * ulpmBytes
 		}
 	}
 	rtxn := in.db.ReadTxn()
